@@ -1,6 +1,6 @@
 /- line-protocol driver for the discovery model (C15); bytes as lowercase hex ("-" = empty)
    cfg <unitsPerSecond> <filterIdHex|none> <hasAddr 0|1>   reset; answers `ok <initial> <timeout>`
-   dg <payloadHex> <ipHex> <port> | tick <n> | consume <0|1> | resume | poll | dump
+   dg <payloadHex> <ipHex> <port> | tick <n> | consume <0|1> | resume | poll | cancel | dump
    sync <toFindHex|none> <hasStaticIp 0|1>  /  sd <payloadHex> <ipHex> <port>      the threaded twin's `_on_discovered` -/
 import GeckoModel.Model.Discovery
 import GeckoModel.Model.DriverUtil
@@ -19,7 +19,7 @@ def showSpas (l : List Desc) : String := if l.isEmpty then "none" else ",".inter
 def showErr : HelloErr → String
   | .valueErr => "E_VALUE" | .assertErr => "E_ASSERT"
 def showMain : Main → String
-  | .running => "running" | .returned r => s!"returned:{r}"
+  | .running => "running" | .returned r => s!"returned:{r}" | .cancelled r => s!"cancelled:{r}"
 def showConsumer : Consumer → String
   | .idle => "idle" | .inHandler => "inHandler" | .dead e => "dead:" ++ showErr e | .cancelled => "cancelled"
 def b01 (b : Bool) : String := if b then "1" else "0"
@@ -52,6 +52,9 @@ def stepLine (st : St) (line : String) : St × String :=
   | ["resume"] => ({ st with s := step st.cfg st.flt st.s .resume }, "ok")
   | ["poll"] =>
     let s' := step st.cfg st.flt st.s .poll
+    ({ st with s := s' }, showMain s'.main)
+  | ["cancel"] =>
+    let s' := step st.cfg st.flt st.s .cancel
     ({ st with s := s' }, showMain s'.main)
   | ["dump"] =>
     let s := st.s
